@@ -15,7 +15,7 @@ static void auditOne(forest* f, const FSpec& fs, Ctx& c, const char* when) {
 
 static void widthCase(Ctx& c) {
     Rng& r = c.rng;
-    int which = int(r.below(5));
+    int which = int(r.below(7));   // 5, 6: several nodes in different counter-width classes at once, with table growth/shrink in between
     Config cfg = randomConfig(r, 1, true);
     initWithCT(cfg);
     installHandleMonitor();
@@ -84,6 +84,46 @@ static void widthCase(Ctx& c) {
         keep.clear(); auditOne(F, fs, c, "results released");
         F->removeAllComputeTableEntries(); auditOne(F, fs, c, "caches cleared");
         eg = dd_edge();
+    } else if (which >= 5) {
+        // Node A is pushed past the 8->16 (which 5) or 16->32 bit (which 6) threshold, node B past 255 and node C stays small;
+        // then A is released again, the handle table is made to grow and shrink (counter arrays may be narrowed), and only
+        // then B and C are released.  Audited at every stage: every stored count must still be exact.
+        long nA = which == 5 ? 300 : 70000;
+        what = std::string("mixed counter widths (A=") + tos(nA) + ", B=300, C=70) with table growth in between";
+        Table ta = tableG(), tb = tableG(), tc = tableG(); ta[1] = Val::in(11); tb[2] = Val::in(12); tc[3] = Val::in(13);
+        dd_edge A(F), B(F), C(F); buildChecked(w, F, fs, ta, A, "C06"); buildChecked(w, F, fs, tb, B, "C06"); buildChecked(w, F, fs, tc, C, "C06");
+        std::vector<dd_edge> ca, cb, cc;
+        bool bFirst = r.chance(1, 2);
+        if (bFirst) for (int i = 0; i < 300; i++) cb.push_back(B);
+        for (long i = 0; i < nA; i++) ca.push_back(A);
+        if (!bFirst) for (int i = 0; i < 300; i++) cb.push_back(B);
+        for (int i = 0; i < 70; i++) cc.push_back(C);
+        auditOne(F, fs, c, "all copies made"); c.count("width_plateaus_audited");
+        if (nA > 65536) c.count("crossed_16_to_32_bit"); c.count("crossed_8_to_16_bit");
+        // release A (all, or down to a few)
+        size_t keepA = r.chance(1, 2) ? 0 : size_t(r.range(1, 200));
+        r.shuffle(ca); ca.resize(keepA);
+        auditOne(F, fs, c, "A released"); c.count("width_plateaus_audited");
+        // grow the handle table well past 512 live nodes, then shrink it again
+        {
+            std::vector<dd_edge> bulk; std::vector<Val> alpha; for (int i = 1; i <= 9; i++) alpha.push_back(Val::in(20 + i));
+            for (int i = 0; i < 260; i++) { Table t(size_t(w.N)); for (auto& v : t) v = alpha[r.below(9)]; dd_edge e(F); buildFromTable(w, F, t, e); bulk.push_back(e); }
+            c.count("mixed_width_peak_nodes", F->getCurrentNumNodes());
+            auditOne(F, fs, c, "handle table grown"); c.count("width_plateaus_audited");
+            bulk.clear();
+            F->removeAllComputeTableEntries();
+            auditOne(F, fs, c, "handle table shrunk"); c.count("width_plateaus_audited");
+        }
+        unsigned long inB = F->getNodeInCount(B.getNode()), inC = F->getNodeInCount(C.getNode());
+        if (inB != 301 || inC != 71) throw Violation("C06:width:count-lost-after-table-resize", "after growing and shrinking the handle table: B has 301 registered edges but incoming count " + tos(inB) + ", C has 71 but " + tos(inC));
+        expectTable(w, B, tb, EXACT, "C06:width:held-edge-changed", "B after resize"); expectTable(w, C, tc, EXACT, "C06:width:held-edge-changed", "C after resize");
+        // release B and C in random order, auditing on the way; the handles must not be recycled while edges hold them
+        r.shuffle(cb);
+        while (!cb.empty()) { cb.pop_back(); size_t left = cb.size(); if (left == 256 || left == 255 || left == 254 || left == 100 || left == 45 || left == 44 || left == 1 || left == 0) { auditOne(F, fs, c, "releasing B"); expectTable(w, B, tb, EXACT, "C06:width:held-edge-changed", "B while releasing its copies"); c.count("width_plateaus_audited"); } }
+        cc.clear(); ca.clear();
+        auditOne(F, fs, c, "all copies released");
+        expectTable(w, A, ta, EXACT, "C06:width:held-edge-changed", "A at the end"); expectTable(w, B, tb, EXACT, "C06:width:held-edge-changed", "B at the end"); expectTable(w, C, tc, EXACT, "C06:width:held-edge-changed", "C at the end");
+        c.count("mixed_width_cases");
     } else {
         // thousands of nodes born and killed: handle array and unique tables grow and shrink
         what = "waves of thousands of nodes";
